@@ -231,6 +231,8 @@ def diff_full(a, b):
 
 _clean_lock = threading.Lock()
 _clean_cache = {}
+_sample_lock = threading.Lock()
+_sampled = set()
 
 
 def clean_reference(ctx, files, dirty, fk):
@@ -327,8 +329,13 @@ def run_apply_case(ctx, case, verbose=False):
         return ev
     if st1.partial > 0 or (st1.done < len(bad) and bad[st1.done]["version"] in st1.revs):
         partial_before_rerun = bad[st1.done]["version"]
-    ctx.sample({"case": {k: case[k] for k in ("shape", "directives", "mode", "fail", "start", "prefix", "count", "fk")},
-                "files": L.render(bad), "events": L.jsonable(ev.items[-1])}, cap=3)
+    if exp.fails and fail and mode != "all" or (exp.fails and mode == "all" and not any(case["directives"])):
+        with _sample_lock:
+            take = mode not in _sampled
+            _sampled.add(mode)
+        if take:
+            ctx.sample({"case": {k: case[k] for k in ("shape", "directives", "mode", "fail", "start", "prefix", "count", "fk")},
+                        "files": L.render(bad), "events": L.jsonable(ev.items[-1])}, cap=3)
     # ---- fix and re-run ----
     write_files(mdir, L.render(good))
     ok, msg = hash_dir(ctx, d, mdir)
@@ -517,6 +524,8 @@ def dry_candidates(ctx):
     rng = ctx.rand("dry-cases")
     cands = []
     shapes = [[2], [2, 2], [3, 1, 2], [2, 2, 2, 2]]
+    if not ctx.quick():
+        shapes += [[4, 3], [1, 2, 4], [3, 3, 3, 3]]
     for shape in shapes:
         nf = len(shape)
         for start in ("absent", "dirty", "revtable", "prefix", "partial", "complete"):
@@ -666,9 +675,9 @@ def main():
         print("REPLAY: %d violated observation(s): %s" % (len(bad), sorted({e.get("key", e.get("what", "?")) for e in bad})))
         sys.exit(1 if bad else 0)
 
-    apply_sel = select(ctx, apply_candidates(ctx), ctx.pick(230, 760), apply_projs)
-    schema_sel = select(ctx, schema_candidates(ctx), ctx.pick(40, 160), schema_projs)
-    dry_sel = select(ctx, dry_candidates(ctx), ctx.pick(80, 300), dry_projs)
+    apply_sel = select(ctx, apply_candidates(ctx), ctx.pick(190, 1800), apply_projs)
+    schema_sel = select(ctx, schema_candidates(ctx), ctx.pick(36, 320), schema_projs)
+    dry_sel = select(ctx, dry_candidates(ctx), ctx.pick(72, 480), dry_projs)
     matrix = {}
     for c in apply_sel:
         k = "%s|%s|%s|%s" % (c["mode"], c["dk"], c["start"], pos_class(c["shape"], c["fail"]))
@@ -691,6 +700,18 @@ def main():
                       "exhaustive": False})
     if not os.environ.get("VERIF_KEEP"):
         shutil.rmtree(ctx.scratch, ignore_errors=True)
+    # A run that did not observe the behaviours the verdict is about must not pass.
+    need = ["apply-failure-model:statement failed in file mode", "apply-failure-model:statement failed in all mode",
+            "apply-failure-model:statement failed in none mode", "final-compared-with-clean-run",
+            "schema:none-mode-sibling|left-partial-changes", "schema-fail|path=alter|midway-proven", "schema-fail|path=rebuild|midway-proven"]
+    missing = [k for k in need if not ctx.counters.get(k)]
+    if not any(k.startswith("dry-run:migrate-apply|") and k.endswith("statements-shown") for k in ctx.counters):
+        missing.append("dry-run:migrate-apply …statements-shown")
+    if not any(k.startswith("dry-run:schema-apply|") and k.endswith("|planned") for k in ctx.counters):
+        missing.append("dry-run:schema-apply …planned")
+    if missing:
+        print("c13: workload did not reach: %s" % missing, file=sys.stderr)
+        sys.exit(2)
     sys.exit(1 if ctx.violations() else 0)
 
 
